@@ -61,18 +61,27 @@ def groups_of(items):
     return order, g
 
 
+def in_domain(p, values):
+    """The precondition of C01, decided by the reference model alone: no first / last / mean(reduce) node sees an empty
+    sequence -- neither in the plain run (there first/last raise by design) nor in the multiplexed run (a key completes
+    with its parent even where the plain observable was disposed early after take/first, so a mean(reduce) that the plain
+    run never gets to evaluate is evaluated there: 0/0)."""
+    ctx = M.MCtx('plain')
+    try:
+        M.run(A.model_chain(p, ctx), values)
+        if ctx.empty_guard:
+            raise Reject()
+        M.run(A.model_chain(p, M.MCtx('mux')), values)
+    except M.OutOfDomain:
+        raise Reject()
+
+
 def plain_runs(p, order, g):
     """per group: Result of the plain pipeline + do_action log; Reject on empty first/last/mean."""
     out = {}
     actions = []
     for k in order:
-        ctx = M.MCtx('plain')
-        try:
-            M.run(A.model_chain(p, ctx), g[k])
-        except M.OutOfDomain:
-            raise Reject()
-        if ctx.empty_guard:
-            raise Reject()
+        in_domain(p, g[k])
     for k in order:
         env = A.Env()
         out[k] = drive.plain(g[k], A.build_pipeline(p, env))
@@ -208,13 +217,7 @@ def check_assert(case):
     order, g = groups_of(items)
     plain = {}
     for k in order:
-        ctx = M.MCtx('plain')
-        try:
-            M.run(A.model_chain(p, ctx), g[k])   # assert nodes are identities in the model: emptiness upper bound
-        except M.OutOfDomain:
-            raise Reject()
-        if ctx.empty_guard:
-            raise Reject()
+        in_domain(p, g[k])     # assert nodes are identities in the model
     for k in order:
         plain[k] = drive.plain(g[k], A.build_pipeline(p, A.Env()))
         if plain[k].raised is not None:
